@@ -13,7 +13,7 @@ from collections import deque
 from dataclasses import dataclass, field
 from typing import Callable, Iterable, Iterator
 
-from .exc import CANCEL, ExcT, FaultModel, handler_type_names
+from .exc import CANCEL, ExcT, FaultModel, decide_nonnull, handler_type_names
 from .loader import FuncNode, Program, U, Unit
 
 
@@ -98,9 +98,10 @@ class K:
 
 
 class CFG:
-    def __init__(self, unit: Unit, fm: FaultModel):
+    def __init__(self, unit: Unit, fm: FaultModel, nonnull: frozenset[str] = frozenset()):
         self.unit = unit
         self.fm = fm
+        self.nonnull = nonnull  # parameters known not to be None at this (specialised) call site
         self.nodes: list[Node] = []
         self.exit = self._new('exit', None)
         self.raise_exits: dict[ExcT, Node] = {}
@@ -126,7 +127,7 @@ class CFG:
         return [self.raise_exits[t]]
 
     def _exc_edges(self, n: Node, st: ast.stmt, k: K) -> None:
-        for t in sorted(self.fm.raises(st, self.unit)):
+        for t in sorted(self.fm.raises(st, self.unit, self.nonnull)):
             if t.name == '<reraise>':
                 t = k.cur_exc or ExcT('BaseException', False)
             for tgt in k.exc(t):
@@ -160,8 +161,11 @@ class CFG:
             return n
         if isinstance(st, ast.If):
             n = self._new('if', st)
-            n.add('true', self._block(st.body, k))
-            n.add('false', self._block(st.orelse, k) if st.orelse else k.nxt)
+            dec = decide_nonnull(st.test, self.nonnull) if self.nonnull else None
+            if dec is not False:
+                n.add('true', self._block(st.body, k))
+            if dec is not True:
+                n.add('false', self._block(st.orelse, k) if st.orelse else k.nxt)
             self._exc_edges(n, st, k)
             return n
         if isinstance(st, ast.While):
@@ -338,6 +342,7 @@ class Analysis:
         self.fm = FaultModel(prog)
         self.cfgs: dict[tuple[str, str], CFG] = {}
         self.iterations = 0
+        self.fm.cfg_factory = lambda u, nn: CFG(u, self.fm, nn)
         self._fixpoint()
 
     def _fixpoint(self) -> None:
@@ -348,6 +353,7 @@ class Analysis:
             self.fm.unresolved.clear()
             self.fm.opaque_calls.clear()
             self.fm.resolved_calls = 0
+            self.fm._spec_memo.clear()
             for u in units:
                 g = CFG(u, self.fm)
                 self.cfgs[u.key] = g
@@ -417,21 +423,22 @@ def search(
                 continue
             env2: Env = tuple(sorted(d2.items()))
             key2 = (e.dst.id, env2)
-            if key2 in seen:
-                continue
-            seen.add(key2)
             lab = e.label if e.exc is None else f'raises {e.exc}'
-            parent[key2] = ((n.id, env), e.dst, lab)
             if is_target(e.dst, d2):
-                # rebuild
+                # rebuild: predecessors via parent links (start states are never in `parent`), then the final step
                 path: list[Step] = []
-                cur: tuple[int, Env] | None = key2
+                cur: tuple[int, Env] | None = (n.id, env)
                 while cur is not None and cur in parent:
                     prev, node, lab2 = parent[cur]
                     path.append(Step(node, lab2, cur[1]))
                     cur = prev
                 path.reverse()
+                path.append(Step(e.dst, lab, env2))
                 return path
+            if key2 in seen:
+                continue
+            seen.add(key2)
+            parent[key2] = ((n.id, env), e.dst, lab)
             if is_barrier(e.dst, d2):
                 continue
             dq.append((e.dst, env2, None))
